@@ -1,6 +1,7 @@
 package rules
 
 import (
+	"fmt"
 	"go/ast"
 	"go/token"
 	"go/types"
@@ -138,6 +139,8 @@ func c04(r *core.Run) {
 	c04Succ(r)
 	c04Sentinel(r)
 	c04Ops(r)
+	c04DistinctArgs(r)
+	c04ExchangePair(r)
 	c04RelPkg(r)
 	c04Conj(r)
 	c04Equiv(r)
@@ -735,9 +738,11 @@ func c04Conj(r *core.Run) {
 				ps = append(ps, pa)
 			}
 		}
-		if len(ps) != 2 || !types.Identical(ps[0].Type(), ps[1].Type()) {
+		// (old, new) or (old0, old1, new0, new1): the first half is one side, the second half the other
+		if len(ps) < 2 || len(ps)%2 != 0 || !types.Identical(ps[0].Type(), ps[len(ps)-1].Type()) {
 			continue
 		}
+		half := len(ps) / 2
 		side := func(v ssa.Value) int {
 			// which parameter the value is read from (0, 1) or -1
 			seen := map[ssa.Value]bool{}
@@ -751,8 +756,8 @@ func c04Conj(r *core.Run) {
 				for i, pa := range ps {
 					if v == ssa.Value(pa) {
 						if res == -1 {
-							res = i
-						} else if res != i {
+							res = i / half
+						} else if res != i/half {
 							res = -2
 						}
 						return
@@ -791,9 +796,20 @@ func c04Conj(r *core.Run) {
 						cmps = append(cmps, cmpv{x, true})
 					}
 				}
+				// a repository helper that compares one part of the first instruction with the matching part of
+				// the second (its last two arguments come from the two sides) and answers with a bool
+				if g := core.StaticCallee(&x.Call); g != nil && p.IsProdFunc(g) && len(x.Call.Args) >= 2 {
+					if grt := resultTypes(g); len(grt) == 1 && grt[0].String() == "bool" {
+						args := x.Call.Args
+						a, b := side(args[len(args)-2]), side(args[len(args)-1])
+						if a >= 0 && b >= 0 && a != b {
+							cmps = append(cmps, cmpv{x, true})
+						}
+					}
+				}
 			}
 		})
-		if len(cmps) < 3 {
+		if len(cmps) < 2 {
 			continue
 		}
 		isCmp := map[ssa.Value]bool{}
@@ -937,4 +953,87 @@ func c04RelPkg(r *core.Run) {
 		r.Check(compares, "C04.RELPKG", core.FuncName(fn)+"#own-package-relative", site.Pos(), "the renderer distinguishes the package under analysis from other packages", "the renderer writes "+what+" without asking whether it is the package under analysis: the same source compiled under another import path (old/ and new/ copies in one module) renders differently, and every function that mentions a package-level type, function or variable of its own package is reported as modified")
 	}
 	r.Floor("C04.RELPKG", "renderers that turn a package into text", n, 2)
+}
+
+// c04DistinctArgs: the functions of the diff pipeline that take an old and a new thing (two parameters of one
+// struct, pointer or interface type from the module or from go/ssa) are handed two different values. The same value
+// twice compares a function with itself: every change is "preserved".
+func c04DistinctArgs(r *core.Run) {
+	p := r.P
+	n := 0
+	for _, fn := range append(p.FuncsIn("internal/cli"), p.FuncsIn("pkg/diff")...) {
+		core.InstrsOf(fn, func(in ssa.Instruction) {
+			c := core.CallOf(in)
+			if c == nil || c.IsInvoke() {
+				return
+			}
+			g := core.StaticCallee(c)
+			if g == nil || !p.IsProdFunc(g) || g.Signature.Variadic() {
+				return
+			}
+			sig := g.Signature
+			off := 0
+			if sig.Recv() != nil {
+				off = 1
+			}
+			for i := 0; i+1 < sig.Params().Len(); i++ {
+				ti, tj := sig.Params().At(i).Type(), sig.Params().At(i+1).Type()
+				if !types.Identical(ti, tj) {
+					continue
+				}
+				ts := ti.String()
+				if !(strings.Contains(ts, p.ModPath) || strings.Contains(ts, ssaPkgPath)) {
+					continue
+				}
+				if i+1+off >= len(c.Args) {
+					continue
+				}
+				a, b := c.Args[i+off], c.Args[i+1+off]
+				n++
+				r.Check(core.Canon(a) != core.Canon(b) || a.Name() != b.Name() && false, "C04.ARGS", core.FuncName(fn)+"→"+g.Name()+fmt.Sprintf("#arg%d≠arg%d", i, i+1), in.Pos(), "the old and the new side are different values", "both the old-side and the new-side parameter of "+core.FuncName(g)+" receive "+core.Canon(a)+": the function is compared with itself, so every behaviour change comes out as preserved")
+			}
+		})
+	}
+	r.Floor("C04.ARGS", "calls with an old-side and a new-side argument", n, 3)
+}
+
+// c04ExchangePair: where a branch exchange is recorded, the recorded pair IS the exchange: element 0 is the block's
+// second successor and element 1 its first. Recording the successors in their own order rewrites the operator
+// without exchanging the branches — `a >= b {A} else {B}` then hashes like `a < b {A} else {B}`.
+func c04ExchangePair(r *core.Run) {
+	p := r.P
+	n := 0
+	for _, fn := range p.FuncsIn("pkg/analysis/ir") {
+		core.InstrsOf(fn, func(in ssa.Instruction) {
+			sto, ok := in.(*ssa.Store)
+			if !ok {
+				return
+			}
+			ia, ok := sto.Addr.(*ssa.IndexAddr)
+			if !ok {
+				return
+			}
+			ar, isArr := core.Deref(ia.X.Type()).Underlying().(*types.Array)
+			if !isArr || ar.Len() != 2 || !strings.HasSuffix(ar.Elem().String(), "ssa.BasicBlock") {
+				return
+			}
+			slot, isK := core.ConstInt(ia.Index)
+			u, isLoad := sto.Val.(*ssa.UnOp)
+			if !isK || !isLoad {
+				return
+			}
+			src, isIA := u.X.(*ssa.IndexAddr)
+			if !isIA {
+				return
+			}
+			base, isSuccs := core.FieldLoad(src.X, "Succs")
+			from, isK2 := core.ConstInt(src.Index)
+			if !isSuccs || !isK2 || !strings.HasSuffix(core.Deref(base.Type()).String(), "ssa.BasicBlock") {
+				return
+			}
+			n++
+			r.Check(slot+from == 1, "C04.EXCHANGE", core.FuncName(fn)+fmt.Sprintf("#slot%d", slot), in.Pos(), fmt.Sprintf("virtual successor %d is the real successor %d", slot, from), fmt.Sprintf("the recorded 'exchanged' pair keeps real successor %d in slot %d: the comparison operator is inverted but the branches are not exchanged, so a test and its opposite with the SAME arms get one fingerprint and the diff reports the change as preserved", from, slot))
+		})
+	}
+	r.Floor("C04.EXCHANGE", "slots of the recorded branch exchange", n, 2)
 }
